@@ -217,8 +217,19 @@ def _piece(runs):
     big = FmtStr(Chunk("zq", {"fg": 35, "underline": True}), *(Chunk(dec_text(t), dec_atts(a)) for t, a in runs),
                  Chunk("w", {"bg": 43}))
     prologue(big, 7)
+    want = [[list(t), list(a)] for t, a in runs]
+    if SEED % 2:
+        # cut by display columns (width_aware_slice) when that gives exactly these runs: texts whose columns can be
+        # counted, no zero-width character at the front
+        try:
+            w = FmtStr(*(Chunk(dec_text(t), dec_atts(a)) for t, a in runs)).width
+            piece = big.width_aware_slice(slice(2, 2 + w))
+            if enc_fmtstr(piece) == want:
+                return piece
+        except Exception:  # noqa - control characters have no width: cut by characters instead
+            pass
     piece = big[2:2 + n]
-    return piece if enc_fmtstr(piece) == [[list(t), list(a)] for t, a in runs] else None
+    return piece if enc_fmtstr(piece) == want else None
 
 
 def _derived(runs):
